@@ -50,7 +50,8 @@ theorem C02_gen_clamps :
     NodeOperatingState.T.ON.value = nodeOn ∧
     (ObsTables.nicEnabledCode, ObsTables.nicDisabledCode) = (nicEnabledCode, nicDisabledCode) ∧
     (ObsTables.portEnabledCode, ObsTables.portDisabledCode) = (nicEnabledCode, nicDisabledCode) ∧
-    ObsTables.nmneCaptureBranch = true ∧ ObsTables.nmneDefaultWhenNotCapturing = true := by
+    ObsTables.nmneCaptureBranch = true ∧ ObsTables.nmneDefaultWhenNotCapturing = true ∧
+    ObsTables.nmneCaptureSource = "'nmne' in nic_state" ∧ ObsTables.nmneObserveReadsClassAttribute = false := by
   decide
 
 /-- every `default_observation` literal is 0, and every `space` body reads only attributes assigned at construction
@@ -127,23 +128,24 @@ def WfFile (f : FileState) : Prop :=
 def WfFolder (f : FolderState) : Prop :=
   f.health ∈ FileSystemItemHealthStatus.values ∧ f.visible ∈ FileSystemItemHealthStatus.values ∧ ∀ p ∈ f.files, WfFile p.2
 
-/-- `capture` is the class-level NMNE switch: when it is on every interface publishes its `nmne` entry. -/
-def WfNic (capture : Bool) (n : NicState) : Prop := 0 < n.speed ∧ (capture = true → n.nmne.isSome = true)
+/-- an interface has a positive speed.  (Since the F-10 repair there is no ill-formed NMNE combination any more: the observation
+follows the interface's own `nmne` entry, so "capturing on, entry missing" cannot be expressed.) -/
+def WfNic (n : NicState) : Prop := 0 < n.speed
 
-def WfNode (capture : Bool) (n : NodeState) : Prop :=
+def WfNode (n : NodeState) : Prop :=
   n.op ∈ NodeOperatingState.values ∧ (∀ p ∈ n.services, WfSvc p.2) ∧ (∀ p ∈ n.apps, WfApp p.2) ∧
-  (∀ p ∈ n.folders, WfFolder p.2) ∧ (∀ p ∈ n.nics, WfNic capture p.2) ∧ n.usm.isSome = true ∧
+  (∀ p ∈ n.folders, WfFolder p.2) ∧ (∀ p ∈ n.nics, WfNic p.2) ∧ n.usm.isSome = true ∧
   (∀ p ∈ n.acls, ∀ r ∈ p.2, ∀ x, r = some x → x.action ∈ ACLAction.values)
 
-def WfState (capture : Bool) (st : SimState) : Prop :=
-  (∀ p ∈ st.nodes, WfNode capture p.2) ∧ (∀ p ∈ st.links, 0 < p.2.bandwidth)
+def WfState (st : SimState) : Prop :=
+  (∀ p ∈ st.nodes, WfNode p.2) ∧ (∀ p ∈ st.links, 0 < p.2.bandwidth)
 
-theorem WfState.node {capture st h n} (w : WfState capture st) (hn : st.node h = some n) : WfNode capture n :=
+theorem WfState.node {st h n} (w : WfState st) (hn : st.node h = some n) : WfNode n :=
   w.1 (h, n) (lookupS_mem hn)
 
 /-! ### leaf classes -/
 
-theorem C02_service_in_space (capture : Bool) (o : ServiceObs) (st : SimState) (w : WfState capture st) :
+theorem C02_service_in_space (o : ServiceObs) (st : SimState) (w : WfState st) :
     contains serviceSpace (o.val st) = true := by
   unfold ServiceObs.val
   cases hf : o.find st with
@@ -174,7 +176,7 @@ theorem node_bind {α} {st : SimState} {h : String} {f : NodeState → Option α
   | none => simp [hn] at hf
   | some n => exact ⟨n, rfl, by simpa [hn] using hf⟩
 
-theorem C02_application_in_space (capture : Bool) (o : AppObs) (st : SimState) (w : WfState capture st) :
+theorem C02_application_in_space (o : AppObs) (st : SimState) (w : WfState st) :
     contains appSpace (o.val st) = true := by
   unfold AppObs.val
   cases hf : o.find st with
@@ -197,7 +199,7 @@ theorem C02_application_in_space (capture : Bool) (o : AppObs) (st : SimState) (
     have h3 : categorise o.thr s.numExec < numExecSize := C02_leaf_categorise _ _
     simp [appSpace, contains, containsAll, lookupK, keysOf, h1, h2, h3]
 
-theorem FolderObs.find_wf {capture o st f} (w : WfState capture st) (hf : FolderObs.find o st = some f) : WfFolder f := by
+theorem FolderObs.find_wf {o st f} (w : WfState st) (hf : FolderObs.find o st = some f) : WfFolder f := by
   unfold FolderObs.find at hf
   cases hw : o.wh with
   | none => simp [hw] at hf
@@ -207,7 +209,7 @@ theorem FolderObs.find_wf {capture o st f} (w : WfState capture st) (hf : Folder
     obtain ⟨n, hn, hl⟩ := node_bind hf
     exact (w.node hn).2.2.2.1 (fo, f) (lookupS_mem hl)
 
-theorem FileObs.find_wf {capture o st f} (w : WfState capture st) (hf : FileObs.find o st = some f) : WfFile f := by
+theorem FileObs.find_wf {o st f} (w : WfState st) (hf : FileObs.find o st = some f) : WfFile f := by
   unfold FileObs.find at hf
   cases hw : o.wh with
   | none => simp [hw] at hf
@@ -229,7 +231,7 @@ theorem C02_file_default_in_space (o : FileObs) : contains o.space o.default = t
   unfold FileObs.space FileObs.default
   refine contains_dict_of_par (Par.cons (by decide) (Par.opt _ _ (fun _ => by decide))) (fileSpace_nodup _ _ _)
 
-theorem C02_file_in_space (capture : Bool) (o : FileObs) (st : SimState) (w : WfState capture st) :
+theorem C02_file_in_space (o : FileObs) (st : SimState) (w : WfState st) :
     contains o.space (o.val st) = true := by
   unfold FileObs.val
   cases hf : o.find st with
@@ -266,7 +268,7 @@ theorem FolderObs.health_lt {o : FolderObs} {f : FolderState} (ok : o.Ok) (wf : 
     · exact ok
     · simpa using wf.2.1
 
-theorem C02_folder_in_space (capture : Bool) (o : FolderObs) (st : SimState) (w : WfState capture st) (ok : o.Ok) :
+theorem C02_folder_in_space (o : FolderObs) (st : SimState) (w : WfState st) (ok : o.Ok) :
     contains o.space (o.val st) = true := by
   unfold FolderObs.val
   cases hf : o.find st with
@@ -275,9 +277,9 @@ theorem C02_folder_in_space (capture : Bool) (o : FolderObs) (st : SimState) (w 
     have h1 := C02_leaf_file_health _ (FolderObs.health_lt ok (FolderObs.find_wf w hf))
     unfold FolderObs.space
     refine contains_dict_of_par (Par.cons (by simp [contains, h1]) (Par.opt _ _ (fun _ => ?_))) (folderSpace_nodup _ _ _)
-    exact contains_dict_of_par (Par.enumFrom _ _ _ _ (fun fo _ => C02_file_in_space capture fo st w)) (nodup_keys_enumFrom _ _)
+    exact contains_dict_of_par (Par.enumFrom _ _ _ _ (fun fo _ => C02_file_in_space fo st w)) (nodup_keys_enumFrom _ _)
 
-theorem C02_folder_ok_next (capture : Bool) (o : FolderObs) (st : SimState) (w : WfState capture st) (ok : o.Ok) :
+theorem C02_folder_ok_next (o : FolderObs) (st : SimState) (w : WfState st) (ok : o.Ok) :
     (o.next st).Ok := by
   unfold FolderObs.next
   cases hf : o.find st with
@@ -356,7 +358,7 @@ theorem C02_nic_default_in_space (o : NicObs) (ok : o.Ok) : contains o.space o.d
     (nicSpace_nodup _ _ _ _ _)
   exact traffic_in_space _ _ ok (fun _ _ _ => by decide)
 
-theorem NicObs.find_wf {capture o st n} (w : WfState capture st) (hf : NicObs.find o st = some n) : WfNic capture n := by
+theorem NicObs.find_wf {o st n} (w : WfState st) (hf : NicObs.find o st = some n) : WfNic n := by
   unfold NicObs.find at hf
   cases hw : o.wh with
   | none => simp [hw] at hf
@@ -366,8 +368,8 @@ theorem NicObs.find_wf {capture o st n} (w : WfState capture st) (hf : NicObs.fi
     obtain ⟨nd, hn, hl⟩ := node_bind hf
     exact (w.node hn).2.2.2.2.1 (i, n) (lookupN_mem hl)
 
-theorem C02_nic_in_space (capture : Bool) (o : NicObs) (st : SimState) (w : WfState capture st) (ok : o.Ok) :
-    contains o.space (o.val capture st) = true := by
+theorem C02_nic_in_space (o : NicObs) (st : SimState) (w : WfState st) (ok : o.Ok) :
+    contains o.space (o.val st) = true := by
   unfold NicObs.val
   cases hf : o.find st with
   | none => exact C02_nic_default_in_space o ok
@@ -377,25 +379,21 @@ theorem C02_nic_in_space (capture : Bool) (o : NicObs) (st : SimState) (w : WfSt
     refine contains_dict_of_par (Par.cons ?_ (Par.append (Par.opt _ _ (fun _ => ?_)) (Par.opt _ _ (fun _ => ?_))))
       (nicSpace_nodup _ _ _ _ _)
     · cases n.enabled <;> decide
-    · cases capture with
-      | false => simp only [Bool.false_eq_true, if_false]; decide
-      | true =>
-        have hs := wn.2 rfl
-        cases hm : n.nmne with
-        | none => simp [hm] at hs
-        | some p =>
-          obtain ⟨i, u⟩ := p
-          have h1 : categorise o.thr ((i : Int) - o.lastIn) < nmneSize := C02_leaf_categorise _ _
-          have h2 : categorise o.thr ((u : Int) - o.lastOut) < nmneSize := C02_leaf_categorise _ _
-          simp [dirDict, contains, containsAll, lookupK, keysOf, h1, h2]
+    · cases hm : n.nmne with
+      | none => simp [dirDict, contains, containsAll, lookupK, keysOf, nmneSize]
+      | some p =>
+        obtain ⟨i, u⟩ := p
+        have h1 : categorise o.thr ((i : Int) - o.lastIn) < nmneSize := C02_leaf_categorise _ _
+        have h2 : categorise o.thr ((u : Int) - o.lastOut) < nmneSize := C02_leaf_categorise _ _
+        simp [dirDict, contains, containsAll, lookupK, keysOf, h1, h2]
     · refine traffic_in_space _ _ ok (fun p q b => ?_)
-      obtain ⟨i, hi, hle⟩ := C02_leaf_utilBin trafficClamp (n.amount p q b) n.speed wn.1
+      obtain ⟨i, hi, hle⟩ := C02_leaf_utilBin trafficClamp (n.amount p q b) n.speed wn
       unfold NicObs.trafficLeaf
       rw [hi]
       have : i < trafficSize := by unfold trafficSize; unfold trafficClamp at hle; omega
       simp [contains, this]
 
-theorem C02_nic_ok_next (capture : Bool) (o : NicObs) (st : SimState) (ok : o.Ok) : (o.next capture st).Ok := by
+theorem C02_nic_ok_next (o : NicObs) (st : SimState) (ok : o.Ok) : (o.next st).Ok := by
   unfold NicObs.next
   cases o.find st with
   | none => exact ok
@@ -416,7 +414,7 @@ theorem C02_port_in_space (o : PortObs) (st : SimState) : contains portSpace (o.
 
 /-! ### links -/
 
-theorem C02_link_in_space (capture : Bool) (o : LinkObs) (st : SimState) (w : WfState capture st) :
+theorem C02_link_in_space (o : LinkObs) (st : SimState) (w : WfState st) :
     contains linkSpace (o.val st) = true := by
   unfold LinkObs.val
   cases hf : o.find st with
@@ -431,10 +429,10 @@ theorem C02_link_in_space (capture : Bool) (o : LinkObs) (st : SimState) (w : Wf
     have : i < linkSize := by unfold linkSize; unfold linkClamp at hle; omega
     simp [linkSpace, hi, contains, containsAll, lookupK, keysOf, this]
 
-theorem C02_links_in_space (capture : Bool) (os : List LinkObs) (st : SimState) (w : WfState capture st) :
-    contains (Obs.links os).space ((Obs.links os).val capture st) = true := by
+theorem C02_links_in_space (os : List LinkObs) (st : SimState) (w : WfState st) :
+    contains (Obs.links os).space ((Obs.links os).val st) = true := by
   simp only [Obs.space, Obs.val]
-  exact contains_dict_of_par (Par.enumFrom _ _ _ _ (fun l _ => C02_link_in_space capture l st w)) (nodup_keys_enumFrom _ _)
+  exact contains_dict_of_par (Par.enumFrom _ _ _ _ (fun l _ => C02_link_in_space l st w)) (nodup_keys_enumFrom _ _)
 
 /-! ### users -/
 
@@ -549,7 +547,7 @@ def AclObs.SlotsOk (o : AclObs) (slots : List (Option RuleState)) : Prop := o.nu
 
 def AclObs.Compat (o : AclObs) (st : SimState) : Prop := o.CfgOk ∧ ∀ slots, o.find st = some slots → o.SlotsOk slots
 
-theorem AclObs.find_wf {capture o st slots} (w : WfState capture st) (hf : AclObs.find o st = some slots) :
+theorem AclObs.find_wf {o st slots} (w : WfState st) (hf : AclObs.find o st = some slots) :
     ∀ r ∈ slots, ∀ x, r = some x → x.action ∈ ACLAction.values := by
   unfold AclObs.find at hf
   cases hw : o.wh with
@@ -563,7 +561,7 @@ theorem AclObs.find_wf {capture o st slots} (w : WfState capture st) (hf : AclOb
 /-- ACL observation, **partial**: holds for every state in which the observation does not ask for more slots than the ACL has
 (F-6, open). `CfgOk` holds of every constructed object (`C02_acl_fromConfig_cfgOk`); an address outside `ip_list` encodes as 1
 since the F-7 fix. -/
-theorem C02_acl_in_space_partial (capture : Bool) (o : AclObs) (st : SimState) (w : WfState capture st) (c : o.Compat st) :
+theorem C02_acl_in_space_partial (o : AclObs) (st : SimState) (w : WfState st) (c : o.Compat st) :
     contains o.space (o.val st) = true := by
   unfold AclObs.val
   cases hf : o.find st with
@@ -591,7 +589,7 @@ theorem C02_acl_in_space_partial (capture : Bool) (o : AclObs) (st : SimState) (
 
 /-- The unrestricted ACL statement. It is FALSE of the code (finding F-6). -/
 def C02_FullAcl : Prop :=
-  ∀ (o : AclObs) (st : SimState), WfState false st → contains o.space (o.val st) = true
+  ∀ (o : AclObs) (st : SimState), WfState st → contains o.space (o.val st) = true
 
 def witnessRule (src : Option String) : RuleState :=
   { action := 1, proto := none, srcIp := src, srcWc := none, srcPort := none, dstIp := none, dstWc := none, dstPort := none }
@@ -602,7 +600,7 @@ def witnessState (slots : List (Option RuleState)) : SimState :=
     links := [] }
 
 theorem witnessState_wf (slots : List (Option RuleState)) (h : ∀ r ∈ slots, ∀ x, r = some x → x.action ∈ ACLAction.values) :
-    WfState false (witnessState slots) := by
+    WfState (witnessState slots) := by
   refine ⟨?_, by simp [witnessState]⟩
   intro p hp
   simp only [witnessState, List.mem_singleton] at hp
@@ -621,7 +619,7 @@ def dupObs : AclObs := AclObs.fromConfig (some ("r", "acl")) 1 ["10.0.0.1", "10.
 def dupState : SimState := witnessState [some (witnessRule (some "10.0.0.1"))]
 
 theorem witnessRule_wf (slots : List (Option RuleState)) (h : ∀ r ∈ slots, r = none ∨ ∃ a, r = some (witnessRule a)) :
-    WfState false (witnessState slots) := by
+    WfState (witnessState slots) := by
   refine witnessState_wf _ ?_
   intro r hr x hx
   rcases h r hr with h | ⟨a, h⟩
@@ -630,27 +628,27 @@ theorem witnessRule_wf (slots : List (Option RuleState)) (h : ∀ r ∈ slots, r
 
 /-- F-7 (fixed): a rule naming an address that is not in `ip_list` now encodes that address as 1 and stays in the space. -/
 theorem C02_acl_unknown_ip_fixed :
-    WfState false f7State ∧ (f7Obs.val f7State).raises = false ∧ contains f7Obs.space (f7Obs.val f7State) = true :=
+    WfState f7State ∧ (f7Obs.val f7State).raises = false ∧ contains f7Obs.space (f7Obs.val f7State) = true :=
   ⟨witnessRule_wf _ (by intro r hr; simp only [List.mem_singleton] at hr; exact Or.inr ⟨_, hr⟩), by decide, by decide⟩
 
 /-- F-6: `num_rules` larger than the number of slots the ACL has makes `observe` raise (KeyError). -/
 theorem C02_acl_too_many_rules_counterexample :
-    WfState false f6State ∧ (f6Obs.val f6State).raises = true ∧ contains f6Obs.space (f6Obs.val f6State) = false :=
+    WfState f6State ∧ (f6Obs.val f6State).raises = true ∧ contains f6Obs.space (f6Obs.val f6State) = false :=
   ⟨witnessRule_wf _ (by intro r hr; simp only [List.mem_singleton] at hr; exact Or.inl hr), by decide, by decide⟩
 
 /-- F-C02-1 (fixed): with a repeated entry in `ip_list` the constructed object de-duplicates, and a listed address stays in
 the space. (Without de-duplication the id was the LAST index + 2 while the space was sized by the number of DISTINCT entries + 2.) -/
 theorem C02_acl_repeated_entry_fixed :
-    WfState false dupState ∧ (dupObs.val dupState).raises = false ∧ contains dupObs.space (dupObs.val dupState) = true :=
+    WfState dupState ∧ (dupObs.val dupState).raises = false ∧ contains dupObs.space (dupObs.val dupState) = true :=
   ⟨witnessRule_wf _ (by intro r hr; simp only [List.mem_singleton] at hr; exact Or.inr ⟨_, hr⟩), by decide, by decide⟩
 
 /-- for every configured list (repeats included) and every state, an ACL observation built by the constructor is in its space as
 soon as the ACL has `num_rules` slots -/
-theorem C02_acl_fromConfig_in_space (capture : Bool) (wh numRules) (ips wcs : List String) (ports : List Nat) (protos : List String)
-    (st : SimState) (w : WfState capture st)
+theorem C02_acl_fromConfig_in_space (wh numRules) (ips wcs : List String) (ports : List Nat) (protos : List String)
+    (st : SimState) (w : WfState st)
     (hs : ∀ slots, (AclObs.fromConfig wh numRules ips wcs ports protos).find st = some slots → numRules ≤ slots.length) :
     contains (AclObs.fromConfig wh numRules ips wcs ports protos).space ((AclObs.fromConfig wh numRules ips wcs ports protos).val st) = true :=
-  C02_acl_in_space_partial capture _ st w ⟨C02_acl_fromConfig_cfgOk _ _ _ _ _ _, hs⟩
+  C02_acl_in_space_partial _ st w ⟨C02_acl_fromConfig_cfgOk _ _ _ _ _ _, hs⟩
 
 theorem C02_acl_counterexample : ¬ C02_FullAcl := by
   intro h
@@ -706,13 +704,13 @@ theorem host_off_in_space (o : HostObs) (ok : o.Ok) (op : Nat) (hop : op < hostO
 theorem C02_host_default_in_space (o : HostObs) (ok : o.Ok) : contains o.space o.default = true :=
   host_off_in_space o ok 0 (by decide)
 
-theorem C02_host_in_space (capture : Bool) (o : HostObs) (st : SimState) (w : WfState capture st) (ok : o.Ok) :
-    contains o.space (o.val capture st) = true := by
+theorem C02_host_in_space (o : HostObs) (st : SimState) (w : WfState st) (ok : o.Ok) :
+    contains o.space (o.val st) = true := by
   unfold HostObs.val
   cases hf : o.find st with
   | none => exact C02_host_default_in_space o ok
   | some n =>
-    have wn : WfNode capture n := by
+    have wn : WfNode n := by
       unfold HostObs.find at hf
       cases hw : o.wh with
       | none => simp [hw] at hf
@@ -735,11 +733,11 @@ theorem C02_host_in_space (capture : Bool) (o : HostObs) (st : SimState) (w : Wf
         (Par.opt _ _ fun _ => ?_) (Par.opt _ _ fun _ => ?_) (Par.opt _ _ fun _ => by simp [contains, hc1])
         (Par.opt _ _ fun _ => by simp [contains, hc2]) (Par.opt _ _ fun _ => hu)))
         (hostKeys_nodup _ _ _ _ _ _ _ _ _ _ _ _ _ _)
-      · exact contains_dict_of_par (Par.enumFrom _ _ _ _ (fun x _ => C02_service_in_space capture x st w)) (nodup_keys_enumFrom _ _)
-      · exact contains_dict_of_par (Par.enumFrom _ _ _ _ (fun x _ => C02_application_in_space capture x st w)) (nodup_keys_enumFrom _ _)
-      · exact contains_dict_of_par (Par.enumFrom _ _ _ _ (fun x hx => C02_folder_in_space capture x st w (ok.1 x hx)))
+      · exact contains_dict_of_par (Par.enumFrom _ _ _ _ (fun x _ => C02_service_in_space x st w)) (nodup_keys_enumFrom _ _)
+      · exact contains_dict_of_par (Par.enumFrom _ _ _ _ (fun x _ => C02_application_in_space x st w)) (nodup_keys_enumFrom _ _)
+      · exact contains_dict_of_par (Par.enumFrom _ _ _ _ (fun x hx => C02_folder_in_space x st w (ok.1 x hx)))
           (nodup_keys_enumFrom _ _)
-      · exact contains_dict_of_par (Par.enumFrom _ _ _ _ (fun x hx => C02_nic_in_space capture x st w (ok.2 x hx)))
+      · exact contains_dict_of_par (Par.enumFrom _ _ _ _ (fun x hx => C02_nic_in_space x st w (ok.2 x hx)))
           (nodup_keys_enumFrom _ _)
     · exact host_off_in_space o ok n.op hop
 
@@ -761,14 +759,14 @@ theorem C02_router_default_in_space (o : RouterObs) : contains o.space o.default
     (Par.opt _ _ fun _ => by decide))) (routerKeys_nodup _ _ _ _ _)
   exact enum_const_in_space _ _ _ (by decide)
 
-theorem C02_router_in_space_partial (capture : Bool) (o : RouterObs) (st : SimState) (w : WfState capture st) (c : o.Compat st) :
+theorem C02_router_in_space_partial (o : RouterObs) (st : SimState) (w : WfState st) (c : o.Compat st) :
     contains o.space (o.val st) = true := by
   unfold RouterObs.val
   split
   · exact C02_router_default_in_space o
   · rename_i n hn
     split
-    · have wn : WfNode capture n := by
+    · have wn : WfNode n := by
         cases hw : o.wh with
         | none => simp [hw] at hn
         | some h => simp only [hw] at hn; exact w.node hn
@@ -777,7 +775,7 @@ theorem C02_router_in_space_partial (capture : Bool) (o : RouterObs) (st : SimSt
         | none => have := wn.2.2.2.2.2.1; simp [hu] at this
         | some u => exact C02_users_in_space u
       unfold RouterObs.space
-      refine contains_dict_of_par (Par.cons (C02_acl_in_space_partial capture _ st w c) (Par.append (Par.opt _ _ fun _ => ?_)
+      refine contains_dict_of_par (Par.cons (C02_acl_in_space_partial _ st w c) (Par.append (Par.opt _ _ fun _ => ?_)
         (Par.opt _ _ fun _ => hu))) (routerKeys_nodup _ _ _ _ _)
       exact contains_dict_of_par (Par.enumFrom _ _ _ _ (fun x _ => C02_port_in_space x st)) (nodup_keys_enumFrom _ _)
     · exact C02_router_default_in_space o
@@ -799,7 +797,7 @@ theorem C02_firewall_default_in_space (o : FirewallObs) : contains o.space o.def
     (Par.opt _ _ fun _ => by decide))) (firewallKeys_nodup _ _ _ _)
   decide
 
-theorem C02_firewall_in_space_partial (capture : Bool) (o : FirewallObs) (st : SimState) (w : WfState capture st)
+theorem C02_firewall_in_space_partial (o : FirewallObs) (st : SimState) (w : WfState st)
     (c : o.Compat st) : contains o.space (o.val st) = true := by
   unfold FirewallObs.val
   cases hn : st.node o.wh with
@@ -807,13 +805,13 @@ theorem C02_firewall_in_space_partial (capture : Bool) (o : FirewallObs) (st : S
   | some n =>
     simp only []
     split
-    · have wn : WfNode capture n := w.node hn
+    · have wn : WfNode n := w.node hn
       have hu : contains usersSpace (usersVal n.usm) = true := by
         cases hu : n.usm with
         | none => have := wn.2.2.2.2.2.1; simp [hu] at this
         | some u => exact C02_users_in_space u
       unfold FirewallObs.space
-      refine contains_dict_of_par (Par.cons ?_ (Par.cons (firewallAcl_in_space _ _ (fun a => C02_acl_in_space_partial capture _ st w ⟨o.acl_cfgOk a, c a⟩))
+      refine contains_dict_of_par (Par.cons ?_ (Par.cons (firewallAcl_in_space _ _ (fun a => C02_acl_in_space_partial _ st w ⟨o.acl_cfgOk a, c a⟩))
         (Par.opt _ _ fun _ => hu))) (firewallKeys_nodup _ _ _ _)
       have hp := fun i => C02_port_in_space (o.port i) st
       exact contains_dict_of_par (Par.cons (hp 1) (Par.cons (hp 2) (Par.single (hp 3)))) (by simp [keysOf, Obs.enumFrom])
@@ -860,19 +858,19 @@ theorem C02_nodes_default_in_space (o : NodesObs) (ok : o.Ok) : contains o.space
     (Par.enumTag _ _ _ _ _ (fun r _ => C02_router_default_in_space r))).append
     (Par.enumTag _ _ _ _ _ (fun f _ => C02_firewall_default_in_space f))) (nodesKeys_nodup _ _ _)
 
-theorem C02_nodes_in_space_partial (capture : Bool) (o : NodesObs) (st : SimState) (w : WfState capture st) (ok : o.Ok)
-    (c : o.Compat st) : contains o.space (o.val capture st) = true := by
+theorem C02_nodes_in_space_partial (o : NodesObs) (st : SimState) (w : WfState st) (ok : o.Ok)
+    (c : o.Compat st) : contains o.space (o.val st) = true := by
   unfold NodesObs.space NodesObs.val
-  exact contains_dict_of_par ((Par.append (Par.enumTag _ _ _ _ _ (fun h hh => C02_host_in_space capture h st w (ok h hh)))
-    (Par.enumTag _ _ _ _ _ (fun r hr => C02_router_in_space_partial capture r st w (c.1 r hr)))).append
-    (Par.enumTag _ _ _ _ _ (fun f hf => C02_firewall_in_space_partial capture f st w (c.2 f hf)))) (nodesKeys_nodup _ _ _)
+  exact contains_dict_of_par ((Par.append (Par.enumTag _ _ _ _ _ (fun h hh => C02_host_in_space h st w (ok h hh)))
+    (Par.enumTag _ _ _ _ _ (fun r hr => C02_router_in_space_partial r st w (c.1 r hr)))).append
+    (Par.enumTag _ _ _ _ _ (fun f hf => C02_firewall_in_space_partial f st w (c.2 f hf)))) (nodesKeys_nodup _ _ _)
 
 /-- with hosts only (no ACL-carrying component) the statement is unconditional in the configuration and the state -/
-theorem C02_hosts_in_space (capture : Bool) (hosts : List HostObs) (st : SimState) (w : WfState capture st)
+theorem C02_hosts_in_space (hosts : List HostObs) (st : SimState) (w : WfState st)
     (ok : ∀ h ∈ hosts, h.Ok) :
     contains (NodesObs.space { hosts := hosts, routers := [], firewalls := [] })
-      (NodesObs.val capture { hosts := hosts, routers := [], firewalls := [] } st) = true :=
-  C02_nodes_in_space_partial capture _ st w ok ⟨by simp, by simp⟩
+      (NodesObs.val { hosts := hosts, routers := [], firewalls := [] } st) = true :=
+  C02_nodes_in_space_partial _ st w ok ⟨by simp, by simp⟩
 
 /-! ### any observation object (NestedObservation included), and trajectories -/
 
@@ -917,29 +915,29 @@ mutual
 /-- **C02, top level (partial only in the ACL hypotheses `Compat`)**: for every observation object — any nesting of any
 classes, any slot counts, thresholds and flags — and every well-formed simulation state, the value returned by `observe` is
 a member of the declared `space`. -/
-theorem C02_obs_in_space (capture : Bool) (st : SimState) (w : WfState capture st) :
-    ∀ o : Obs, o.Ok → o.Compat st → contains o.space (o.val capture st) = true
+theorem C02_obs_in_space (st : SimState) (w : WfState st) :
+    ∀ o : Obs, o.Ok → o.Compat st → contains o.space (o.val st) = true
   | .null, _, _ => (by decide : contains (.discrete 1) (.int 0) = true)
-  | .service o, _, _ => C02_service_in_space capture o st w
-  | .app o, _, _ => C02_application_in_space capture o st w
-  | .file o, _, _ => C02_file_in_space capture o st w
-  | .folder o, ok, _ => C02_folder_in_space capture o st w ok
-  | .nic o, ok, _ => C02_nic_in_space capture o st w ok
+  | .service o, _, _ => C02_service_in_space o st w
+  | .app o, _, _ => C02_application_in_space o st w
+  | .file o, _, _ => C02_file_in_space o st w
+  | .folder o, ok, _ => C02_folder_in_space o st w ok
+  | .nic o, ok, _ => C02_nic_in_space o st w ok
   | .port o, _, _ => C02_port_in_space o st
-  | .link o, _, _ => C02_link_in_space capture o st w
-  | .links os, _, _ => C02_links_in_space capture os st w
-  | .acl o, _, c => C02_acl_in_space_partial capture o st w c
-  | .host o, ok, _ => C02_host_in_space capture o st w ok
-  | .router o, _, c => C02_router_in_space_partial capture o st w c
-  | .firewall o, _, c => C02_firewall_in_space_partial capture o st w c
-  | .nodes o, ok, c => C02_nodes_in_space_partial capture o st w ok c
+  | .link o, _, _ => C02_link_in_space o st w
+  | .links os, _, _ => C02_links_in_space os st w
+  | .acl o, _, c => C02_acl_in_space_partial o st w c
+  | .host o, ok, _ => C02_host_in_space o st w ok
+  | .router o, _, c => C02_router_in_space_partial o st w c
+  | .firewall o, _, c => C02_firewall_in_space_partial o st w c
+  | .nodes o, ok, c => C02_nodes_in_space_partial o st w ok c
   | .nested cs, ok, c => by
     simp only [Obs.space, Obs.val]
-    exact contains_dict_of_par (C02_nested_par capture st w cs ok.2 c) (spaceL_nodup cs ok.1)
-theorem C02_nested_par (capture : Bool) (st : SimState) (w : WfState capture st) :
-    ∀ cs : List (String × Obs), Obs.OkL cs → Obs.CompatL st cs → Par (Obs.spaceL cs) (Obs.valL capture st cs)
+    exact contains_dict_of_par (C02_nested_par st w cs ok.2 c) (spaceL_nodup cs ok.1)
+theorem C02_nested_par (st : SimState) (w : WfState st) :
+    ∀ cs : List (String × Obs), Obs.OkL cs → Obs.CompatL st cs → Par (Obs.spaceL cs) (Obs.valL st cs)
   | [], _, _ => Par.nil
-  | c :: cs, ok, cp => Par.cons (C02_obs_in_space capture st w c.2 ok.1 cp.1) (C02_nested_par capture st w cs ok.2 cp.2)
+  | c :: cs, ok, cp => Par.cons (C02_obs_in_space st w c.2 ok.1 cp.1) (C02_nested_par st w cs ok.2 cp.2)
 end
 
 mutual
@@ -975,7 +973,7 @@ theorem FolderObs.space_next (o : FolderObs) (st : SimState) : (o.next st).space
 theorem FolderObs.default_next (o : FolderObs) (st : SimState) : (o.next st).default = o.default := by
   unfold FolderObs.next; split <;> rfl
 
-theorem NicObs.space_next (capture : Bool) (o : NicObs) (st : SimState) : (o.next capture st).space = o.space := by
+theorem NicObs.space_next (o : NicObs) (st : SimState) : (o.next st).space = o.space := by
   unfold NicObs.next; split
   · rfl
   · split
@@ -984,97 +982,97 @@ theorem NicObs.space_next (capture : Bool) (o : NicObs) (st : SimState) : (o.nex
 
 theorem map_isEmpty {α β} (f : α → β) (l : List α) : (l.map f).isEmpty = l.isEmpty := by cases l <;> rfl
 
-theorem HostObs.space_next (capture : Bool) (o : HostObs) (st : SimState) : (o.next capture st).space = o.space := by
+theorem HostObs.space_next (o : HostObs) (st : SimState) : (o.next st).space = o.space := by
   unfold HostObs.next; split
   · rfl
   · split
     · simp only [HostObs.space, map_isEmpty, List.map_map]
       have h1 : (FolderObs.space ∘ fun x => x.next st) = FolderObs.space := by funext x; exact FolderObs.space_next x st
-      have h2 : (NicObs.space ∘ fun x => NicObs.next capture x st) = NicObs.space := by
-        funext x; exact NicObs.space_next capture x st
+      have h2 : (NicObs.space ∘ fun x => NicObs.next x st) = NicObs.space := by
+        funext x; exact NicObs.space_next x st
       rw [h1, h2]
     · rfl
 
-theorem NodesObs.space_next (capture : Bool) (o : NodesObs) (st : SimState) : (o.next capture st).space = o.space := by
+theorem NodesObs.space_next (o : NodesObs) (st : SimState) : (o.next st).space = o.space := by
   simp only [NodesObs.next, NodesObs.space, List.map_map]
-  have h1 : (HostObs.space ∘ fun x => HostObs.next capture x st) = HostObs.space := by
-    funext x; exact HostObs.space_next capture x st
+  have h1 : (HostObs.space ∘ fun x => HostObs.next x st) = HostObs.space := by
+    funext x; exact HostObs.space_next x st
   rw [h1]
 
 mutual
 /-- **space_const**: the declared space is the same after any number of `observe` calls, on any states. -/
-theorem C02_space_const (capture : Bool) (st : SimState) : ∀ o : Obs, (o.next capture st).space = o.space
+theorem C02_space_const (st : SimState) : ∀ o : Obs, (o.next st).space = o.space
   | .null => rfl
   | .service _ => rfl
   | .app _ => rfl
   | .file _ => rfl
   | .folder o => by simp only [Obs.next, Obs.space]; exact FolderObs.space_next o st
-  | .nic o => by simp only [Obs.next, Obs.space]; exact NicObs.space_next capture o st
+  | .nic o => by simp only [Obs.next, Obs.space]; exact NicObs.space_next o st
   | .port _ => rfl
   | .link _ => rfl
   | .links os => by simp [Obs.next, Obs.space, Function.comp_def]
   | .acl _ => rfl
-  | .host o => by simp only [Obs.next, Obs.space]; exact HostObs.space_next capture o st
+  | .host o => by simp only [Obs.next, Obs.space]; exact HostObs.space_next o st
   | .router _ => rfl
   | .firewall _ => rfl
-  | .nodes o => by simp only [Obs.next, Obs.space]; exact NodesObs.space_next capture o st
-  | .nested cs => by simp only [Obs.next, Obs.space]; rw [C02_spaceL_const capture st cs]
-theorem C02_spaceL_const (capture : Bool) (st : SimState) :
-    ∀ cs : List (String × Obs), Obs.spaceL (Obs.nextL capture st cs) = Obs.spaceL cs
+  | .nodes o => by simp only [Obs.next, Obs.space]; exact NodesObs.space_next o st
+  | .nested cs => by simp only [Obs.next, Obs.space]; rw [C02_spaceL_const st cs]
+theorem C02_spaceL_const (st : SimState) :
+    ∀ cs : List (String × Obs), Obs.spaceL (Obs.nextL st cs) = Obs.spaceL cs
   | [] => rfl
-  | c :: cs => by simp only [Obs.nextL, Obs.spaceL]; rw [C02_space_const capture st c.2, C02_spaceL_const capture st cs]
+  | c :: cs => by simp only [Obs.nextL, Obs.spaceL]; rw [C02_space_const st c.2, C02_spaceL_const st cs]
 end
 
-theorem HostObs.ok_next (capture : Bool) (o : HostObs) (st : SimState) (w : WfState capture st) (ok : o.Ok) :
-    (o.next capture st).Ok := by
+theorem HostObs.ok_next (o : HostObs) (st : SimState) (w : WfState st) (ok : o.Ok) :
+    (o.next st).Ok := by
   unfold HostObs.next; split
   · exact ok
   · split
     · refine ⟨?_, ?_⟩
       · intro f hf
         obtain ⟨g, hg, rfl⟩ := List.mem_map.mp hf
-        exact C02_folder_ok_next capture g st w (ok.1 g hg)
+        exact C02_folder_ok_next g st w (ok.1 g hg)
       · intro n hn
         obtain ⟨g, hg, rfl⟩ := List.mem_map.mp hn
-        exact C02_nic_ok_next capture g st (ok.2 g hg)
+        exact C02_nic_ok_next g st (ok.2 g hg)
     · exact ok
 
-theorem nextL_labels (capture : Bool) (st : SimState) : ∀ cs : List (String × Obs),
-    (Obs.nextL capture st cs).map Prod.fst = cs.map Prod.fst
+theorem nextL_labels (st : SimState) : ∀ cs : List (String × Obs),
+    (Obs.nextL st cs).map Prod.fst = cs.map Prod.fst
   | [] => rfl
-  | c :: cs => by simp [Obs.nextL, nextL_labels capture st cs]
+  | c :: cs => by simp [Obs.nextL, nextL_labels st cs]
 
 mutual
-theorem C02_ok_next (capture : Bool) (st : SimState) (w : WfState capture st) : ∀ o : Obs, o.Ok → (o.next capture st).Ok
+theorem C02_ok_next (st : SimState) (w : WfState st) : ∀ o : Obs, o.Ok → (o.next st).Ok
   | .null, h => h
   | .service _, h => h
   | .app _, h => h
   | .file _, h => h
-  | .folder o, h => by simp only [Obs.next, Obs.Ok]; exact C02_folder_ok_next capture o st w h
-  | .nic o, h => by simp only [Obs.next, Obs.Ok]; exact C02_nic_ok_next capture o st h
+  | .folder o, h => by simp only [Obs.next, Obs.Ok]; exact C02_folder_ok_next o st w h
+  | .nic o, h => by simp only [Obs.next, Obs.Ok]; exact C02_nic_ok_next o st h
   | .port _, h => h
   | .link _, _ => by simp [Obs.next, Obs.Ok]
   | .links _, _ => by simp [Obs.next, Obs.Ok]
   | .acl _, h => h
-  | .host o, h => by simp only [Obs.next, Obs.Ok]; exact HostObs.ok_next capture o st w h
+  | .host o, h => by simp only [Obs.next, Obs.Ok]; exact HostObs.ok_next o st w h
   | .router _, h => h
   | .firewall _, h => h
   | .nodes o, h => by
     simp only [Obs.next, Obs.Ok, NodesObs.Ok, NodesObs.next]
     intro x hx
     obtain ⟨g, hg, rfl⟩ := List.mem_map.mp hx
-    exact HostObs.ok_next capture g st w (h g hg)
+    exact HostObs.ok_next g st w (h g hg)
   | .nested cs, h => by
     simp only [Obs.next, Obs.Ok]
-    exact ⟨by rw [nextL_labels]; exact h.1, C02_okL_next capture st w cs h.2⟩
-theorem C02_okL_next (capture : Bool) (st : SimState) (w : WfState capture st) :
-    ∀ cs : List (String × Obs), Obs.OkL cs → Obs.OkL (Obs.nextL capture st cs)
+    exact ⟨by rw [nextL_labels]; exact h.1, C02_okL_next st w cs h.2⟩
+theorem C02_okL_next (st : SimState) (w : WfState st) :
+    ∀ cs : List (String × Obs), Obs.OkL cs → Obs.OkL (Obs.nextL st cs)
   | [], h => h
-  | c :: cs, h => ⟨C02_ok_next capture st w c.2 h.1, C02_okL_next capture st w cs h.2⟩
+  | c :: cs, h => ⟨C02_ok_next st w c.2 h.1, C02_okL_next st w cs h.2⟩
 end
 
 mutual
-theorem compat_next (capture : Bool) (st st' : SimState) : ∀ o : Obs, o.Compat st' → (o.next capture st).Compat st'
+theorem compat_next (st st' : SimState) : ∀ o : Obs, o.Compat st' → (o.next st).Compat st'
   | .null, h => h
   | .service _, h => h
   | .app _, h => h
@@ -1089,17 +1087,17 @@ theorem compat_next (capture : Bool) (st st' : SimState) : ∀ o : Obs, o.Compat
   | .router _, h => h
   | .firewall _, h => h
   | .nodes _, h => h
-  | .nested cs, h => by simp only [Obs.next, Obs.Compat]; exact compatL_next capture st st' cs h
-theorem compatL_next (capture : Bool) (st st' : SimState) :
-    ∀ cs : List (String × Obs), Obs.CompatL st' cs → Obs.CompatL st' (Obs.nextL capture st cs)
+  | .nested cs, h => by simp only [Obs.next, Obs.Compat]; exact compatL_next st st' cs h
+theorem compatL_next (st st' : SimState) :
+    ∀ cs : List (String × Obs), Obs.CompatL st' cs → Obs.CompatL st' (Obs.nextL st cs)
   | [], h => h
-  | c :: cs, h => ⟨compat_next capture st st' c.2 h.1, compatL_next capture st st' cs h.2⟩
+  | c :: cs, h => ⟨compat_next st st' c.2 h.1, compatL_next st st' cs h.2⟩
 end
 
 /-- **C02 along a trajectory**: starting from any object satisfying the invariant (in particular a freshly built one), every
 observation reported along ANY sequence of well-formed states is a member of the ONE space declared at the start. -/
-theorem C02_run_in_space (capture : Bool) : ∀ (sts : List SimState) (o : Obs), o.Ok →
-    (∀ st ∈ sts, WfState capture st ∧ o.Compat st) → ∀ v ∈ o.run capture sts, contains o.space v = true := by
+theorem C02_run_in_space : ∀ (sts : List SimState) (o : Obs), o.Ok →
+    (∀ st ∈ sts, WfState st ∧ o.Compat st) → ∀ v ∈ o.run sts, contains o.space v = true := by
   intro sts
   induction sts with
   | nil => intro o _ _ v hv; simp [Obs.run] at hv
@@ -1108,9 +1106,9 @@ theorem C02_run_in_space (capture : Bool) : ∀ (sts : List SimState) (o : Obs),
     have hst := h st (by simp)
     simp only [Obs.run, List.mem_cons] at hv
     rcases hv with hv | hv
-    · subst hv; exact C02_obs_in_space capture st hst.1 o ok hst.2
-    · have := ih (o.next capture st) (C02_ok_next capture st hst.1 o ok)
-        (fun st' hst' => ⟨(h st' (by simp [hst'])).1, compat_next capture st st' o (h st' (by simp [hst'])).2⟩) v hv
+    · subst hv; exact C02_obs_in_space st hst.1 o ok hst.2
+    · have := ih (o.next st) (C02_ok_next st hst.1 o ok)
+        (fun st' hst' => ⟨(h st' (by simp [hst'])).1, compat_next st st' o (h st' (by simp [hst'])).2⟩) v hv
       rwa [C02_space_const] at this
 
 /-! #### non-vacuity: a concrete host observation on a concrete non-trivial state -/
@@ -1132,8 +1130,8 @@ def exState : SimState :=
                         numCreations := 17, numDeletions := 4, usm := some { localUser := true, remote := 9 }, acls := [] })],
     links := [] }
 
-example : WfState true exState ∧ (Obs.host exHost).Ok ∧ (Obs.host exHost).Compat exState ∧
-    contains exHost.space (exHost.val true exState) = true ∧ (exHost.val true exState).raises = false := by
+example : WfState exState ∧ (Obs.host exHost).Ok ∧ (Obs.host exHost).Compat exState ∧
+    contains exHost.space (exHost.val exState) = true ∧ (exHost.val exState).raises = false := by
   refine ⟨⟨?_, by simp [exState]⟩, ⟨?_, ?_⟩, trivial, by decide, by decide⟩
   · intro p hp
     simp only [exState, List.mem_singleton] at hp
@@ -1144,7 +1142,7 @@ example : WfState true exState ∧ (Obs.host exHost).Ok ∧ (Obs.host exHost).Co
     · intro q hq; simp only [List.mem_singleton] at hq; subst hq
       refine ⟨by decide, by decide, ?_⟩
       intro r hr; simp only [List.mem_singleton] at hr; subst hr; exact ⟨by decide, by decide⟩
-    · intro q hq; simp only [List.mem_singleton] at hq; subst hq; exact ⟨by decide, fun _ => rfl⟩
+    · intro q hq; simp only [List.mem_singleton] at hq; subst hq; exact (by decide : 0 < 100)
   · intro f hf; simp only [exHost, List.mem_singleton] at hf; subst hf; exact (by decide : (0 : Nat) ∈ FileSystemItemHealthStatus.values)
   · intro n hn; simp only [exHost, List.mem_singleton] at hn; subst hn; exact (by decide : (["icmp", "tcp"] : List String).Nodup)
 
